@@ -8,7 +8,7 @@ func init() {
 		Explain:    "Decides structural necessary conditions of the binary round trip: (1) for every coder literal {size, marshal, unmarshal, merge} of the fast path, the unmarshal function tests the wire type and uses the Consume primitive of the family the marshal function emits (varint, fixed32, fixed64, length-delimited, group), slice coders of packable kinds accept both the packed and the unpacked form, value transforms are mutually inverse (ZigZag, Bool, float bit casts), all functions of the literal use the same Go accessor, and UTF-8 validation is on both sides or on neither; (2) in every Kind-dependent branch of the coder tables (fieldCoder, encoderFuncsForValue), of the validator and of the reflection codec in package proto, the wire primitives, transforms, Value constructors/accessors and the coder installed for the Kind match the protobuf scalar table; (3) the reflection encoder's length-prefix protocol (appendSpeculativeLength / finishSpeculativeLength) leaves b[:pos] ++ varint(payload length) ++ payload for every payload length — payload length, prefix size, grow-loop count, copy bounds, final length and prefix write are verified as linear forms over len(b), pos and the prefix size; (4) on the decoding side of the round trip: the lazy field index covers exactly each lazy field occurrence, the validator's explicit stack restores the recursion budget on every pop, and the three tag loops of the fast-path decoder agree (number range, end groups, errUnknown means skip).",
 		NotCovered: "the round trip on concrete messages; map entries, extensions resolution, MessageSet, dynamicpb; arithmetic inside the primitives (C01).",
 		Quick:      all("./internal/impl", "./proto"),
-		Thorough:   all("./..."),
+		Thorough:   allAndLegacy("./internal/impl", "./proto"),
 		Run: func(c *Ctx) {
 			c.ruleCoderRow("R-CODER-ROW", 100)
 			c.ruleCoderSelect("R-CODER-SELECT", 60)
